@@ -124,8 +124,41 @@ def oracle(case):
     return None
 
 
+EXPLICIT = [
+    # an excluded first value under one alias, another value under another alias (both strategies must see the conflict)
+    (dict(), "    x: int = Field(alias_from=['x1', 'x2'], on_error='exclude', required=False)\n    y: int = 0\n",
+     [{"x1": "abc", "x2": 3}, {"x": "abc", "x2": 3}, {"x2": 3, "x1": "abc"}, {"x1": 3, "x2": 3}, {"x1": "abc", "x2": "abc"}, {"x": 1, "x1": "abc", "y": 2}]),
+    (dict(invalid_values="exclude"), "    x: int = Field(alias_from=['x1', 'x2'], required=False)\n    y: int = 0\n",
+     [{"x1": "abc", "x2": 3}, {"x2": 3, "x1": "abc"}, {"x": "abc", "x1": 4, "y": "1"}]),
+    # the same case-insensitive key in several letter cases, conflicts ignored or not
+    (dict(ignore_alias_conflicts=True), "    name: int = Field(case_insensitive=True)\n    tag: str = Field(case_insensitive=True, alias_from=['label'], default='')\n",
+     [{"Name": 1, "NAME": 2}, {"NAME": 2, "Name": 1}, {"name": 1, "Label": "a", "LABEL": "b"}, {"name": 1, "LABEL": "b", "Label": "a"}, {"Name": 1, "name": 1}]),
+    (dict(), "    name: int = Field(case_insensitive=True)\n    tag: str = Field(case_insensitive=True, alias_from=['label'], default='')\n",
+     [{"Name": 1, "NAME": 2}, {"name": 1, "Label": "a", "LABEL": "b"}, {"Name": 1, "name": 1}, {"NAME": "x", "name": 1}]),
+    (dict(case_insensitive=True, ignore_alias_conflicts=True), "    a: int = Field(alias_from=['a1'])\n    b: str = 'd'\n",
+     [{"A": 1, "a": 2}, {"a": 2, "A": 1}, {"A1": 1, "a1": 2, "B": "x", "b": "y"}, {"a": 1, "A1": 2}]),
+]
+
+
+def explicit_cases():
+    """hand-written class pairs around repeated keys (aliases after an excluded value, letter-case variants with and without
+    ignored conflicts): the random generator rarely combines these features"""
+    out = []
+    for okw, body, datas in EXPLICIT:
+        names = []
+        for dfs in (True, False):
+            n2 = dyn.fresh("Sx")
+            kw = dict(okw, data_first_search=dfs)
+            dyn.declare("class %s(Schema):\n    __options__ = Options(%s)\n%s" % (n2, ", ".join("%s=%r" % kv for kv in kw.items()), body))
+            names.append(n2)
+        src = "class K(Schema):\n    __options__ = Options(%s)\n%s" % (", ".join("%s=%r" % kv for kv in okw.items()), body)
+        for d in datas:
+            out.append(dict(names=names, src=src, okw=dict(okw), fields=[], data=d, explicit=True))
+    return out
+
+
 def gen_cases(rng, nclasses, per):
-    cases = []
+    cases = explicit_cases()
     for _ in range(nclasses):
         names, src, fields, okw = declare_pair(rng)
         for _ in range(per):
@@ -332,7 +365,7 @@ def main(tier, seed):
     cases = gen_cases(rng, ncls, per)
     # model against implementation, once per strategy
     mcases = []
-    sample = cases if tier != "quick" else [c for i, c in enumerate(cases) if i % 3 == 0]
+    sample = cases if tier != "quick" else [c for i, c in enumerate(cases) if i % 3 == 0 or c.get("explicit")]
     for c in sample:
         mcases.append(dict(cls=c["names"][0], ropts=None, data=c["data"]))
         mcases.append(dict(cls=c["names"][1], ropts=None, data=c["data"]))
